@@ -143,9 +143,26 @@ def handle (op : String) (a : Json) : Except String Json := do
     let recJ := fun (runs : List (List (Nat × Out))) => arr (runs.map fun c => arr (c.map fun ko => arr [toJson ko.1, outJson ko.2]))
     if evs.any isFault then
       return ok (Json.mkObj [("runs", recJ (driverRunF [] [] evs)), ("aborted", toJson true)]) (tags ++ ["store-fault"]).eraseDups
-    let r := driverRun [] [] hevs
-    return ok (Json.mkObj [("runs", recJ r.2), ("aborted", toJson false), ("buffered", toJson r.1.1.length),
-      ("stats", arr (r.1.2.map statsJson))]) tags.eraseDups
+    -- reporting/metrics.request.downsample.factor as Driver.prepare_benchmark reads it (absent / null = not set)
+    let opt ← match a.getObjVal? "downsample" with
+      | .ok Json.null => pure none
+      | .ok _ => do pure (some (← getNat a "downsample"))
+      | .error _ => pure none
+    if downsampleFactor opt == 0 then throw "out-of-domain"
+    let r := driverRunCfg opt [] [] hevs
+    return ok (Json.mkObj [("runs", recJ (r.2.map (·.2))), ("aborted", toJson false), ("buffered", toJson r.1.1.length),
+      ("kept", arr (r.2.map fun x => toJson x.1.length)),
+      ("stats", arr (r.1.2.map statsJson))]) (tags ++ (if downsampleFactor opt > 1 then ["downsampled"] else [])).eraseDups
+  | "throttle" =>
+    -- the throttling wait of AsyncExecutor.__call__: performance counter at processing_start of each request
+    let ts ← getRat a "total_start"
+    let reqsJ ← getArr a "reqs"
+    let reqs ← reqsJ.mapM fun j => do
+      let e ← getRat j "expected"
+      let f ← getRat j "free"
+      pure (e, f)
+    let tags := reqs.foldl (fun t (e, f) => t ++ (if e > 0 then (if ts + e - f > 0 then ["waited"] else ["behind-schedule"]) else ["unthrottled"])) []
+    return ok (arr (reqs.map fun (e, f) => ratStr (throttleStart ts f e))) tags.eraseDups
   | "sort" =>
     -- stable sort by absolute time (correspondence with Python's `sorted(key=…)`); returns the permutation of ids
     let xs ← getArr a "abs"
